@@ -77,6 +77,13 @@ def gen(cls, idx, rng, tier):
                     far=0 if tier == "quick" else 1250,
                     seed=rng.randrange(1 << 30))
     if cls == "large":
+        if idx % 4 == 3:
+            # sizes no double holds exactly (the functions are integer
+            # arithmetic; nothing in them may depend on float precision)
+            big = [(1 << 53) + 1, (1 << 60) + 7, 10 ** 18 + 3, (1 << 70) + 1]
+            w = rng.choice(big + [1, 2, 5, rng.randint(3, 300)])
+            h = rng.choice(big + ([3, 256] if w in big else []))
+            return dict(kind="large", w=w, h=h, seed=rng.randrange(1 << 30))
         return dict(kind="large", w=rng.choice([rng.randint(49, 300),
                                                 rng.randint(300, 5000), 1, 2,
                                                 255, 256, 65536]),
@@ -211,6 +218,8 @@ def run_large(case, ctx, g):
         where = dict(w=w, h=h, src=src, dst=dst, formula=dist)
         L = g.shortest_torus_path_length(src, dst, w, h)
         ctx.hit("large_torus_pair")
+        if max(w, h) > 1 << 53:
+            ctx.hit("torus_beyond_double_precision")
         check(L == dist, "torus-length", "got %r want %d" % (L, dist),
               **where)
         random.seed(case["seed"] + _)
